@@ -77,9 +77,36 @@ SPEC_BUILTINS["Latin1"] = _sp_latin1
 # every stored replacement is a pseudonym over code points 0..255 (needed to re-encrypt it as $9$)
 R.pred("LookupOK", [("m", ANY)], [("latin1", "all(Latin1(m[k]) for k in m)")])
 
+def _uf_builtin(name, ufname, ret, *sorts):
+    SPEC_BUILTINS[name] = _sp_uf_fun(ufname, ret, *sorts)
+
+
+_uf_builtin("HexEnc", "hexenc", STR, STR)
+_uf_builtin("Hex2Int", "hex2int", INT, STR)
+_uf_builtin("Type7", "type7_hash", STR, INT, STR)
+_uf_builtin("Md5Crypt", "md5crypt_hash", STR, STR, STR)
+_uf_builtin("Sha512Crypt", "sha512crypt_hash", STR, STR, STR)
+_uf_builtin("Repeat", "str_repeat", STR, STR, INT)
+_uf_builtin("SplitDollar", "py_split_36", SeqT(STR), STR)
+
+
+def _sp_jenc(eng, args, kw, n):
+    """JEnc(plain, salt): juniper_nonrandom_encrypt(plain, salt) as the pure function of its arguments"""
+    plain, salt = args
+    some = salt.some if isinstance(salt, OptV) else z3.BoolVal(True)
+    sv = salt.val.term if isinstance(salt, OptV) else eng.term(salt, STR)
+    f = lib.uf("pure_juniper_nonrandom_encrypt", lib.S, lib.B, lib.S, lib.S)
+    return P(STR, f(eng.term(plain, STR), some, z3.If(some, sv, z3.StringVal(""))))
+
+
+SPEC_BUILTINS["JEnc"] = _sp_jenc
+
 LOOKUP = MapT(STR, STR)
 EET0 = "_extract_enclosing_text(raw_val, '', '')"
 SKIP = "(%s[1] in reserved_words or %s[1] == '')" % (EET0, EET0)
+
+NEWPLAIN = "(not %s and %s[1] not in old(lookup) and not J9Valid(%s[1]))" % (SKIP, EET0, EET0)
+BASE = "('netconanRemoved' + str(size(old(lookup))))"
 
 R.contract(M + "_anonymize_value",
            types={"raw_val": STR, "lookup": LOOKUP, "reserved_words": SetT(STR), "salt": Opt(STR)}, returns=STR,
@@ -103,4 +130,18 @@ R.contract(M + "_anonymize_value",
                % (SKIP, EET0, EET0, EET0, EET0, EET0),
                "implies(not %s and J9Valid(%s[1]) and J9Dec(%s[1]) != '' and %s[1] not in old(lookup), "
                "J9Dec(%s[1]) in lookup)" % (SKIP, EET0, EET0, EET0, EET0),
+           ] + [
+               # the replacement recorded for a NEW secret is this explicit function of the number of secrets seen so
+               # far, the format class of the value and (for $1$) the length of its salt field - of nothing else (C07, C09)
+               "implies(%s and FmtSpec(%s[1]) == %d, lookup[%s[1]] == %s)" % (NEWPLAIN, EET0, code, EET0, expr)
+               for code, expr in (
+                   (5, BASE),
+                   (2, "str(Hex2Int(HexEnc(%s)))" % BASE),
+                   (3, "HexEnc(%s)" % BASE),
+                   (1, "Type7(9, %s)" % BASE),
+                   (4, "Md5Crypt(Repeat('0', min(len(SplitDollar(%s[1])[2]), 8)), %s)" % (EET0, BASE)),
+                   (6, "Sha512Crypt('0000000000000000', %s)" % BASE),
+                   (7, "JEnc(%s, salt)" % BASE),
+               )
+           ] + [
            ])
